@@ -5,6 +5,7 @@ import (
 	"fmt"
 	"math"
 	"sort"
+	"time"
 
 	"github.com/pingcap/kvproto/pkg/errorpb"
 	"github.com/pingcap/kvproto/pkg/kvrpcpb"
@@ -131,6 +132,7 @@ type txnView struct {
 type primaryAt struct {
 	seq uint64
 	key []byte
+	at  time.Duration // simulated instant of the request's submission
 }
 
 func physical(ts uint64) int64 { return int64(ts >> 18) }
@@ -280,7 +282,7 @@ func (m *monitor) run() {
 		switch req := r.Req.Req.(type) {
 		case *kvrpcpb.PrewriteRequest:
 			v := view(req.StartVersion, r.Client)
-			v.primaries = append(v.primaries, primaryAt{r.SubmitSeq, req.PrimaryLock})
+			v.primaries = append(v.primaries, primaryAt{r.SubmitSeq, req.PrimaryLock, r.SubmitAt})
 			v.prewrites = append(v.prewrites, r)
 			if v.primary == nil {
 				v.primary = req.PrimaryLock
@@ -303,7 +305,7 @@ func (m *monitor) run() {
 			}
 		case *kvrpcpb.PessimisticLockRequest:
 			v := view(req.StartVersion, r.Client)
-			v.primaries = append(v.primaries, primaryAt{r.SubmitSeq, req.PrimaryLock})
+			v.primaries = append(v.primaries, primaryAt{r.SubmitSeq, req.PrimaryLock, r.SubmitAt})
 		case *kvrpcpb.BatchRollbackRequest:
 			v := view(req.StartVersion, r.Client)
 			v.rollbacks = append(v.rollbacks, r)
@@ -546,6 +548,27 @@ func (m *monitor) run() {
 			}
 			if len(seen) > 0 && !named {
 				m.fail("R6-heartbeat-primary", sig, "txn %d: heart-beat names %q, the transaction's primaries so far were %q", ts, req.PrimaryLock, seen)
+			}
+			// ... and the CURRENT one: once a lock or prewrite request has named another primary (the first one was
+			// un-assigned, or its lock call failed), the keep-alive of the old one must have ended. One tick may already
+			// have been past its TSO fetch (a few milliseconds); anything later is a heart-beat for a key that is not the
+			// transaction's primary any more - while the real primary gets none.
+			if first && named {
+				var newer *primaryAt
+				for i := range v.primaries {
+					pr := &v.primaries[i]
+					if pr.seq < hb.SubmitSeq && !bytes.Equal(pr.key, req.PrimaryLock) {
+						newer = pr
+					} else if pr.seq < hb.SubmitSeq {
+						newer = nil // named again later
+					}
+				}
+				if newer != nil {
+					m.hit("R6-heartbeat-stale-primary")
+					if hb.SubmitAt-newer.at > 50*time.Millisecond {
+						m.fail("R6-heartbeat-stale-primary", sig, "txn %d: heart-beat names %q %v after a request of the transaction had named the new primary %q", ts, req.PrimaryLock, hb.SubmitAt-newer.at, newer.key)
+					}
+				}
 			}
 			// judged on the first appearance of a value: a re-send after a time-out repeats the value of its
 			// tick and may leave after the heart-beat of a later tick
